@@ -23,6 +23,7 @@ def parse_arr(s):
 ENTRIES = False          # every op also through its other public entry points: Tensor method, operator, nn layer class
 SPELLINGS = False        # set together with LAYOUTS: integer arguments also arrive as NumPy integers, tuples also as lists
 SPELL_OPS = ('concat', 'stack', 'unbind', 'sum', 'mean', 'squeeze', 'unsqueeze', 'reshape', 'movedim', 'transpose', 'flatten')
+_LAYER_OBJECTS = {}      # parameterless layer objects, kept for the life of the process (see Impl._call_nn)
 DTYPE_KW = False         # set by C07 / C10: a leaf's dtype also arrives as the constructor's `dtype=` argument over float data
 RESET_ROUTES = False     # set by the property modules about gradient histories: `t zero` goes through Tensor.zero_ / Module.zero_grad / Optimizer.zero_grad in turn
 LAYOUTS = False          # set by the property modules whose input space includes the memory layout of leaf arrays
@@ -183,7 +184,8 @@ class Impl:
     def call_nn(self, name, x, args):
         """`int or tuple` arguments of the 2-d ops are spelled as a pair, as the documented bare int when both entries agree, as a
         list, or as a pair of NumPy integers; the undocumented spellings fall back to the pair when the forward rejects them"""
-        sp = (sum(map(ord, ' '.join(map(str, args)))) + len(x)) % 4 if SPELLINGS and name in ('conv2d', 'max_pool2d', 'avg_pool2d', 'unfold', 'fold') else 0
+        self.nnc = getattr(self, 'nnc', 0) + 1          # spelling and entry point also vary from call to call within a program
+        sp = (sum(map(ord, ' '.join(map(str, args)))) + len(x) + self.nnc) % 4 if SPELLINGS and name in ('conv2d', 'max_pool2d', 'avg_pool2d', 'unfold', 'fold') else 0
         if sp and sp % 2 == 0 and name != 'conv2d' and len(set(args[0].split(','))) == 1: sp = 1      # square kernel: the documented int spelling half of the time
         if sp >= 2:
             try:
@@ -201,18 +203,24 @@ class Impl:
             if sp == 3: return tuple(np.int64(q) for q in v)
             return v
         nn = self.nn
-        lay = ENTRIES and (sum(map(ord, name + ' '.join(map(str, args)))) + len(x)) % 2 == 1        # the layer class instead of the function
+        lay = ENTRIES and (sum(map(ord, name + ' '.join(map(str, args)))) + len(x) + self.nnc // 2) % 2 == 1        # the layer class instead of the function
+        def once(key, make):
+            """a parameterless layer object is built ONCE per process for each constructor-argument tuple and then called again
+            and again — with other shapes, values and dtypes — as the layers of a model are"""
+            k = (name,) + tuple(key)
+            if k not in _LAYER_OBJECTS: _LAYER_OBJECTS[k] = make()
+            return _LAYER_OBJECTS[k]
         if lay:
             if name in ('relu', 'selu', 'tanh', 'sigmoid'):
-                return {'relu': nn.ReLU, 'selu': nn.SELU, 'tanh': nn.Tanh, 'sigmoid': nn.Sigmoid}[name]()(x[0])
-            if name == 'leaky_relu': return nn.LeakyReLU(bitsf(args[0]))(x[0])
-            if name in ('softmax', 'log_softmax'): return (nn.Softmax if name == 'softmax' else nn.LogSoftmax)(int(args[0]))(x[0])
+                return once((), {'relu': nn.ReLU, 'selu': nn.SELU, 'tanh': nn.Tanh, 'sigmoid': nn.Sigmoid}[name])(x[0])
+            if name == 'leaky_relu': return once((args[0],), lambda: nn.LeakyReLU(bitsf(args[0])))(x[0])
+            if name in ('softmax', 'log_softmax'): return once((args[0],), lambda: (nn.Softmax if name == 'softmax' else nn.LogSoftmax)(int(args[0])))(x[0])
             if name in ('max_pool1d', 'avg_pool1d'):
-                return (nn.MaxPool1d if name[0] == 'm' else nn.AvgPool1d)(int(args[0]), int(args[1]), int(args[2]), int(args[3]))(x[0])
+                return once(tuple(args[:4]), lambda: (nn.MaxPool1d if name[0] == 'm' else nn.AvgPool1d)(int(args[0]), int(args[1]), int(args[2]), int(args[3])))(x[0])
             if name in ('max_pool2d', 'avg_pool2d'):
-                return (nn.MaxPool2d if name[0] == 'm' else nn.AvgPool2d)(pair(args[0]), pair(args[1]), pair(args[2]), pair(args[3]))(x[0])
-            if name == 'unfold': return nn.Unfold(pair(args[0]), stride=pair(args[2]), padding=pair(args[3]), dilation=pair(args[1]), pad_value=bitsf(args[4]))(x[0])
-            if name == 'fold': return nn.Fold(tuple(common.parse_ints(args[0])), pair(args[1]), stride=pair(args[3]), padding=pair(args[4]), dilation=pair(args[2]))(x[0])
+                return once(tuple(args[:4]) + (sp,), lambda: (nn.MaxPool2d if name[0] == 'm' else nn.AvgPool2d)(pair(args[0]), pair(args[1]), pair(args[2]), pair(args[3])))(x[0])
+            if name == 'unfold': return once(tuple(args[:5]) + (sp,), lambda: nn.Unfold(pair(args[0]), stride=pair(args[2]), padding=pair(args[3]), dilation=pair(args[1]), pad_value=bitsf(args[4])))(x[0])
+            if name == 'fold': return once(tuple(args[:5]) + (sp,), lambda: nn.Fold(tuple(common.parse_ints(args[0])), pair(args[1]), stride=pair(args[3]), padding=pair(args[4]), dilation=pair(args[2])))(x[0])
             if name in ('linear', 'conv1d', 'conv2d'):
                 # a layer object whose parameters ARE the program's operand tensors (so their gradients are observed as usual)
                 w = x[1]; b = x[2] if len(x) > 2 else None
